@@ -385,7 +385,7 @@ def result_of(ex, p, callee):
     for ev in reversed(p.events):
         if ev[0].endswith(cs) and len(ev) > 2:
             return ev[2]
-    raise KeyError("no call of %s on this path" % cs)
+    return VDyn(V.fresh("nocall", Val))        # no such call on this path: an arbitrary value
 
 
 @REG.specfunc()
